@@ -178,6 +178,53 @@ def check_pairs(limit=None):
     return out
 
 
+def main_personality(argv):
+    """run the real enip main() up to the point where it would start serving; return the route_path of the UCMM class it configured"""
+    from cpppo.server import network
+    from cpppo.server.enip import main as enip_main, device, logix
+    captured = {}
+
+    def fake_server_main(*a, **k):
+        captured.update(k)
+        k['kwargs']['server']['control']['done'] = True        # main() loops until the server control says done
+        return 0
+    orig = network.server_main
+    network.server_main = fake_server_main
+    enip_main.network.server_main = fake_server_main
+    try:
+        device.lookup_reset()
+        logix.setup_reset()
+        import cpppo
+        enip_main.options = cpppo.dotdict()           # module-global options persist between main() calls
+        enip_main.main(argv=['-a', '127.0.0.1:0'] + list(argv) + ['A=INT[2]'])
+    except SystemExit:
+        pass
+    except Exception as e:
+        return 'raised %s: %s' % (type(e).__name__, e)
+    finally:
+        network.server_main = orig
+        enip_main.network.server_main = orig
+    kw = captured.get('kwargs', captured)
+    cls = None
+    for v in list(captured.values()) + [kw]:
+        if isinstance(v, dict) and 'UCMM_class' in v:
+            cls = v['UCMM_class']
+    def walk(x, depth=0):
+        if isinstance(x, dict) and depth < 4:
+            if 'UCMM_class' in x:
+                return x['UCMM_class']
+            for y in x.values():
+                r = walk(y, depth + 1)
+                if r is not None:
+                    return r
+        return None
+    cls = cls or walk(captured)
+    if cls is None:
+        return 'none'
+    rp = cls.route_path
+    return [dict(x) for x in rp] if isinstance(rp, list) else rp
+
+
 def ref_route(text):
     """reference parser of route-path texts: 'p/l', chained 'p/l/p/l', JSON list of dicts / of 'p/l' strings; links int or address"""
     def link(x):
@@ -235,6 +282,28 @@ def bounded(tier, seed):
             violations.append(dict(key='parse_route_path(%r)' % t, observed=repr(got)[:200], required=repr(want)[:200]))
         if len(samples) < 5 and '[' in t:
             samples.append(dict(text=t, segments=want))
+    # route table ranges "p/lo-hi": every link of the range, inclusive
+    from cpppo.server.enip import ucmm
+    for pl in ('1/1-15', '2/7-7', '3/0-2', '4/5', '5/1.2.3.4', '1/3-2'):
+        ev += 1
+        distinct.add(('expand', pl))
+        got = list(ucmm.port_link_expand([(pl, 'T')]))
+        try:
+            port, rng_ = pl.split('/', 1)
+            lo, hi = [int(x) for x in rng_.split('-', 1)]
+            want = [('%s/%d' % (port, l), 'T') for l in range(lo, hi + 1)]
+        except Exception:
+            want = [(pl, 'T')]
+        if got != want and len(violations) < 8:
+            violations.append(dict(key='port_link_expand(%r)' % pl, observed=repr(got)[:200], required=repr(want)[:200]))
+    # main(): --route-path / --simple -> the UCMM personality actually configured
+    for argv, want in (([], 'none'), (['-S'], False), (['--simple'], False), (['--route-path', '1/0'], [{'port': 1, 'link': 0}]),
+                       (['--route-path', '[{"port": 2, "link": "10.0.0.1"}]'], [{'port': 2, 'link': '10.0.0.1'}]), (['-S', '--route-path', '[]'], [])):
+        ev += 1
+        distinct.add(('main', tuple(argv)))
+        got = main_personality(argv)
+        if got != want and len(violations) < 8:
+            violations.append(dict(key='main(%r)' % (argv,), observed='UCMM personality %r' % (got,), required='%r' % (want,)))
     bad = check_pairs()
     ev += 30
     for b in bad[:5]:
